@@ -583,6 +583,75 @@ def _places_of_stmt(s):
     return out
 
 
+# readers of StaticsArena::seals (abstract id -> the definition it seals). A user program can make this table cyclic
+# (`def L : VType = L`), so a reader that follows an entry into a recursive call of itself must carry a visited set.
+SEAL_READERS = {
+    "zydeco_statics::normalize::<impl zydeco_statics::syntax::TypeId>::unroll_opening": "recursive: guarded by `opened`",
+    "zydeco_statics::normalize::<impl zydeco_statics::syntax::TypeId>::unroll": "recursive when it reads the table itself: the guard is checked",
+    "zydeco_statics::fmt::SealedTypeEquation::new": "reads one entry, no recursion",
+    "<zydeco_statics::fmt::SealedTypeEquation as zydeco_syntax::fmt::Pretty<'a, zydeco_statics::fmt::Formatter<'a>>>::pretty":
+        "prints one definition; an abstract type inside it prints as its name, not through the table",
+    "zydeco_statics::elaborate::monadic::type_translation": "a sealed type is an error there (NotInlinableSeal)",
+    "zydeco_statics::check::Tycker::<'a>::record_seal": "writer",
+}
+
+
+def rule_seal_cycle(ctx):
+    rule = "seal-cycle"
+    facts = ctx.facts
+    ctx.rule(rule, "every function that reads StaticsArena::seals is inventoried, and one that hands a value read from the table to a "
+                   "recursive call of itself does so only under a membership test (`contains` / `insert`) of the seal id in a "
+                   "collection that the same branch extends with it: a seal that leads back to itself (`def L : VType = L`) must not "
+                   "be opened forever (stack overflow = abort instead of a diagnostic)")
+    n = 0
+    for fn, bd in sorted(facts.bodies().items()):
+        if "zydeco_" not in fn or "::tests::" in fn:
+            continue
+        base = fn.split("::{closure")[0]
+        h = facts.hir(fn) if "{closure" not in fn else None
+        if not h:
+            continue
+        reads = [x for x in H.walk(h["body"]) if H.kind(x) == "Field" and x.get("name") == "seals"
+                 and re.search(r"StaticsArena", tys.strip_refs((x.get("e") or x.get("base") or {}).get("ty", "") if isinstance(x.get("e") or x.get("base"), dict) else ""))]
+        if not reads:
+            continue
+        n += 1
+        if base not in SEAL_READERS:
+            ctx.violation(rule, "%s:uninventoried-reader" % M.short_fn(base), "%s reads StaticsArena::seals but is not in the audited "
+                          "inventory of its readers: the table can be cyclic, the new reader has to be audited for termination" % base,
+                          [bd["loc"][0], reads[0].get("ln")])
+            continue
+        ctx.fn(base)
+        # recursive use: a call of this very function inside a branch that binds the entry
+        rec = [c for c in H.walk(h["body"]) if H.kind(c) in ("Call", "MethodCall") and (H.callee(c) or "") == base]
+        par = {}
+        stack = [h["body"]]
+        while stack:
+            p = stack.pop()
+            for c in H.children(p):
+                if isinstance(c, dict):
+                    par[id(c)] = p
+                    stack.append(c)
+        for m in H.walk(h["body"]):
+            if not (H.kind(m) == "Match" and not m.get("src") and any(r is y for r in reads for y in H.walk(m["scrut"]))):
+                continue
+            for a in m["arms"]:
+                inner = [c for c in rec if any(c is y for y in H.walk(a["body"]))]
+                if not inner:
+                    continue
+                g = a.get("guard")
+                tests = [y for y in (H.walk(g) if g is not None else []) if H.kind(y) == "MethodCall" and y["name"] in ("contains", "insert", "contains_key")]
+                grows = [y for y in H.walk(a["body"]) if H.kind(y) == "MethodCall" and y["name"] in ("push", "insert")]
+                same = bool(tests) and bool(grows) and any(
+                    (H.path_local(t["recv"]) or [None])[0] is not None and (H.path_local(t["recv"]) or [None])[0] == (H.path_local(gw["recv"]) or [None])[0]
+                    for t in tests for gw in grows) or (bool(tests) and any(t["name"] == "insert" for t in tests))
+                ctx.check(same, rule, "%s:recursion-guard" % M.short_fn(base),
+                          "%s follows an entry of the seals table into a recursive call of itself without a visited-set test on the seal "
+                          "id: `def L : VType = L` makes it recurse until the stack overflows" % base, [bd["loc"][0], a["ln"]],
+                          detail={"guard": "contains + push on the same collection"})
+    ctx.floor(rule, "readers of the seals table", n, 4)
+
+
 def rule_exit_path(ctx):
     rule = "exit-path"
     ctx.rule(rule, "zydeco::main maps Err of Application::run to render() followed by exit(1); no other "
@@ -625,6 +694,7 @@ def run(ctx):
     rule_first_element(ctx)
     rule_arm_div(ctx)
     rule_stripped_arena(ctx)
+    rule_seal_cycle(ctx)
     rule_exit_path(ctx)
     ctx.assume("capacity conversions (usize -> u32 ids/offsets) are out of scope: inputs are below 4 GiB")
     ctx.assume("the ~100 `let .. else { unreachable!(..query-produced..) }` tests of query results in check/mod.rs, "
